@@ -141,7 +141,7 @@ package memory
 //
 // Clone forks the top activation into a memory of its own. Nothing is assumed about the recycled
 // memory's sp: a destroyed context is in whatever state it was left in.
-//@ func (*Type).Clone [C18,C03,C02,C19,C01]
+//@ func (*Type).Clone [C18,C03,C02,C19,C01,C04,C05,C10]
 //@   requires wf(m)
 //@   requires[reuse] reuse == nil || (wf(reuse) && reuse != m && arr(reuse.stack) != arr(m.stack) && arr(reuse.fp) != arr(m.fp))
 //@   modifies *reuse, elems(reuse.stack), elems(reuse.fp)
@@ -152,7 +152,7 @@ package memory
 //@   ensures[room]        result.sp <= len(result.stack)
 //@   ensures[copy]        len(m.fp) >= 2 ==> (forall i :: 0 <= i && i < m.sp - topFP(m) ==> result.stack[i] == m.stack[topFP(m) + i])
 //@   ensures[globals]     ref(result.global) == ref(m.global)
-//@   ensures[closure_separated;C18,C02,C01,C03] len(result.closure) == len(m.closure) && (cap(result.closure) == len(result.closure) || arr(result.closure) != arr(m.closure))
+//@   ensures[closure_separated;C18,C02,C01,C03,C04,C05,C10] len(result.closure) == len(m.closure) && (cap(result.closure) == len(result.closure) || arr(result.closure) != arr(m.closure))
 //@   ensures[closure_same] forall j :: 0 <= j && j < len(m.closure) ==> same(result.closure[j], m.closure[j])
 //@   ensures[wf]          wf(result)
 //
